@@ -94,6 +94,7 @@ pub fn stages(id: &str) -> Vec<Stage> {
         "C02" => vec![
             st(C02 { params: Params::conflict_heavy().env_override(), stage: "main", variants: 4 }, 15_000, 600_000, Release),
             st(C02 { params: Params::assertion_heavy(), stage: "assertions", variants: 3 }, 10_000, 400_000, Release),
+            st(C02 { params: Params::deep_conflict(), stage: "deep", variants: 2 }, 4_000, 160_000, Release),
             st_x(C04Deep { id: "C02", stage: "deep-chain", max_depth: 16_384, max_soft: 70_000 }, 2, 8, Isolated),
         ],
         "C03" => vec![
@@ -109,6 +110,7 @@ pub fn stages(id: &str) -> Vec<Stage> {
         ],
         "C05" => vec![
             st(C05 { params: Params::conflict_heavy().with_soft(2, 100), stage: "main" }, 60_000, 1_500_000, Release),
+            st(C05 { params: Params::deep_conflict().with_soft(3, 100), stage: "deep" }, 10_000, 400_000, Release),
         ],
         "C06" => vec![
             st(C06 { params: Params::conflict_heavy(), stage: "main", repeats: 4 }, 6_000, 200_000, Release),
@@ -145,6 +147,7 @@ pub fn stages(id: &str) -> Vec<Stage> {
         "C13" => vec![
             st(C13 { params: Params::conflict_heavy().with_soft(2, 100), stage: "main" }, 10_000, 400_000, Release),
             st(C13 { params: Params::default().hint_heavy().with_soft(2, 100), stage: "rich" }, 5_000, 200_000, Release),
+            st(C13 { params: Params::deep_conflict().with_soft(2, 100), stage: "deep" }, 3_000, 100_000, Release),
         ],
         "C14" => vec![
             st(C14 { params: Params::conflict_heavy().with_soft(5, 200), stage: "general", conflict_free: false }, 15_000, 600_000, Release),
